@@ -24,6 +24,11 @@ var yieldFiles = []string{
 	"connctx/connctx.go",
 	"vnet/delay_filter.go",
 	"vnet/chunk_queue.go",
+	"vnet/router.go",
+	"vnet/net.go",
+	"vnet/conn.go",
+	"vnet/conn_map.go",
+	"vnet/nat.go",
 }
 
 // ... and files whose clock reads are redirected to hook functions.
